@@ -69,6 +69,16 @@ int main(int argc, char** argv) {
                 std::string c, a; ls >> c >> a;
                 auto r = parseChecksum(unhex(c), unhex(a));
                 if (r) printf("some %s\n", hex(*r).c_str()); else printf("none\n");
+            } else if (cmd == "verdict") {
+                std::string c, a, h; ls >> c >> a >> h;
+                std::optional<std::string> content;
+                if (c != "!") content = unhex(c);
+                switch (checksumVerdict(content, unhex(a), unhex(h))) {
+                    case ChecksumVerdict::Verified: printf("Verified\n"); break;
+                    case ChecksumVerdict::NoChecksums: printf("NoChecksums\n"); break;
+                    case ChecksumVerdict::NoEntry: printf("NoEntry\n"); break;
+                    case ChecksumVerdict::Mismatch: printf("Mismatch\n"); break;
+                }
             } else if (cmd == "seq") {
                 std::string d; ls >> d;
                 std::filesystem::path cf = std::filesystem::path(cacheHome) / "bloch" / "update_cache.txt";
@@ -86,8 +96,15 @@ int main(int argc, char** argv) {
                     if (sk == "1") setenv("BLOCH_NO_UPDATE_CHECK", "1", 1); else unsetenv("BLOCH_NO_UPDATE_CHECK");
                     std::string tag = (f == "!") ? "!fail" : unhex(f);
                     setenv("BLOCH_VERIF_LATEST_TAG", tag.c_str(), 1);
+                    // sk 2: the cache can be read but not written (hook H6); sk 3: it can be neither read nor written (its
+                    // directory is replaced by a plain file for the duration of the call - no hook involved)
+                    if (sk == "2") setenv("BLOCH_VERIF_CACHE_READONLY", "1", 1); else unsetenv("BLOCH_VERIF_CACHE_READONLY");
+                    std::filesystem::path dir = cf.parent_path(), aside = dir; aside += ".aside";
+                    if (sk == "3") { std::filesystem::rename(dir, aside); std::ofstream block(dir); block << "x"; }
                     std::string o;
                     { Capture cap; checkForUpdatesIfDue(unhex(cur)); o = cap.out.str(); }
+                    if (sk == "3") { std::filesystem::remove(dir); std::filesystem::rename(aside, dir); }
+                    unsetenv("BLOCH_VERIF_CACHE_READONLY");
                     int count = 0; size_t pos = 0;
                     while ((pos = o.find("There is a new", pos)) != std::string::npos) {
                         ++count;
